@@ -82,9 +82,17 @@ def generate(rng, tier, idx):
         names = ['z%d' % (d - i) for i in range(d)]
         table['names'] = names
     config = gmvlib.rand_config(rng, names, allow_default=(d <= 3 and table['n'] <= 200))
+    ops = _ops_for(rng, d, thorough)
+    if rng.random() < 0.3:
+        # history: the same object is fitted again on another table with the same columns and
+        # then conditioned on a set it was already conditioned on before the refit
+        t2 = dict(table, seed=rng.randrange(2**31),
+                  pattern=rng.choice(['random', 'neg', 'chain', 'star']))
+        first = [o for o in ops if o['op'] == 'sample_cond'][0]
+        ops.append({'op': 'refit', 'table': t2, 'state': rng.randrange(2**31)})
+        ops.append(dict(first, n=rng.choice([8, 50]), reuse=False))
     return {'table': table, 'config': config, 'seed': zoo.rand_seedspec(rng),
-            'fit_state': rng.randrange(2**31), 'g0': rng.randrange(2**31),
-            'ops': _ops_for(rng, d, thorough)}
+            'fit_state': rng.randrange(2**31), 'g0': rng.randrange(2**31), 'ops': ops}
 
 
 def fixed_runs(tier):
@@ -415,6 +423,15 @@ def execute(run):
         if op['op'] == 'app_draw':
             np.random.random(op['k'])
             ctx.faults['F5_foreign_draws'] += 1
+        elif op['op'] == 'refit':
+            df2, _r2 = zoo.gen_table(op['table'])
+            with sterile(op['state']):
+                o = outcome(model.fit, df2)
+            ctx.probes['refit_same_object'] += 1
+            ctx.event('refit', outcome_class(o))
+            if o[0] != 'ok':
+                break
+            train_df = df2
         elif op['op'] == 'sample_cond':
             proto = _check_cond(ctx, run, model, train_df, op, recognised)
             if proto != 'skipped':
